@@ -37,7 +37,24 @@ def mk(props, order, nested=None):
     return {"nodes": nodes, "root": 0}
 
 
+from .. import gen_types as gt
+HARNESS_FILES = gt.harness_files
+
+
 def gen(rng, tier, n):
+    from . import c16
+    # the PropertyOrder that For infers (field order, duplicates of redeclared JSON names removed) must be one Marshal accepts and
+    # renders in field order: a share of the stream are inferred schemas of declared struct types (judged by C16's oracle)
+    n_infer = n // 12
+    n -= n_infer
+    ops = _gen(rng, tier, n)
+    iops = [o for o in c16.gen(rng, tier, n_infer * 2) if (o["args"]["type"].get("k") == "named")][:n_infer]
+    for o in iops:
+        o["meta"]["infer"] = True
+    return ops + iops
+
+
+def _gen(rng, tier, n):
     ops = []
     base = NAMES[:4]
     # exhaustive small scopes
@@ -93,6 +110,9 @@ def nontrivial(o):
 
 
 def judge(o, go, m):
+    if o["op"] == "infer":
+        from . import c16
+        return c16.judge(o, go, m)
     if go is None:
         return "violation:harness", "no answer"
     if go.get("outcome") == "harness-error":
